@@ -232,6 +232,6 @@ package routing
 //@   callsite muskingum [C04.arg-input] arg1.dim(0) == inputs.dim(2) && arg1.root == inputs.root && forall(t, 0, inputs.dim(2), arg1.idx(t) == inputs.idx(i % inputs.dim(0), 1, t))
 //@   callsite muskingum [C04.arg-state] arg2 == states.elem(i, 0) && arg3 == states.elem(i, 1) && arg4 == states.elem(i, 2)
 //@   callsite muskingum [C04.arg-param] arg5 == m.K.elem(i % m.K.dim(0)) && arg6 == m.X.elem(i % m.X.dim(0)) && arg7 == m.DeltaT.elem(i % m.DeltaT.dim(0))
-//@   callsite muskingum [C04.arg-output] arg8.dim(0) == inputs.dim(2) && arg8.root == outputs.root && forall(t, 0, inputs.dim(2), arg8.idx(t) == outputs.idx(i, 0, t))
+//@   callsite muskingum [C04.arg-output,C05.writes-own-rows] arg8.dim(0) == inputs.dim(2) && arg8.root == outputs.root && forall(t, 0, inputs.dim(2), arg8.idx(t) == outputs.idx(i, 0, t))
 //@   atsend [C04.state-back] states.elem(i, 0) == s && states.elem(i, 1) == previnflow && states.elem(i, 2) == prevoutflow
 //@   loop 0 invariant 0 <= j && j <= numCells
